@@ -77,7 +77,7 @@ CONSTANTS Tables,            \* class -> <<[f |-> field name, subs |-> <<sub-fie
           Emit,              \* print CASE lines (and the tables)
           EmitOff            \* rotates the sample of the modes with emitmod > 1 (set from the seed)
 
-VARIABLES mode,              \* name of the enumeration mode ("trace" in TraceMultiValued)
+VARIABLES mode,              \* the enumeration mode: [name, uniform, maxf, heavy, emitmod]
           cls, beh,          \* configuration: class, Release.size_field_behavior ("-" for the other classes)
           shape,             \* the uniform shape (NoShape when the mode is not uniform)
           para,              \* field index -> [form, recs]: the structured fields PRESENT in the object
@@ -205,11 +205,13 @@ MMask(S) == FoldSet(LAMBDA f, acc : acc + 2 ^ (f - 1), 0, S)
 
 ----------------------------------------------------------------------------
 NoShape == [form |-> "none", sizes |-> <<>>]
-ModeRec == CHOOSE m \in Modes : m.name = mode
+\* (the mode's small attributes are carried in the state: TLC re-evaluates Modes on every use)
+ModeShapes == (CHOOSE m \in Modes : m.name = mode.name).shapes
 NFields == Len(Tables[cls])
 Subs(f) == MSubs(Tables, cls, f)
 
-Init == /\ \E m \in Modes : /\ mode = m.name
+Init == /\ \E m \in Modes : /\ mode = [name |-> m.name, uniform |-> m.uniform, maxf |-> m.maxf,
+                                        heavy |-> m.heavy, emitmod |-> m.emitmod]
                             /\ \E cf \in m.configs : cls = cf[1] /\ beh = cf[2]
                             /\ shape \in (IF m.uniform THEN m.shapes ELSE {NoShape})
         /\ para = <<>> /\ phase = "build" /\ text = <<>> /\ parsed = <<>> /\ res = "ok"
@@ -221,7 +223,8 @@ BuildWith(f, e) == /\ phase = "build"
                    /\ para' = MExt(para, f, e)
                    /\ UNCHANGED <<mode, cls, beh, shape, phase, text, parsed, res>>
 \* bounded enumeration: fields are added in table order (every subset is reached exactly once)
-Build(f, sh) == /\ Cardinality(DOMAIN para) < ModeRec.maxf
+Build(f, sh) == /\ phase = "build"
+                /\ Cardinality(DOMAIN para) < mode.maxf
                 /\ \A g \in DOMAIN para : g < f
                 /\ BuildWith(f, [form |-> sh.form, recs |-> MMkRecs(Subs(f), sh.sizes)])
 
@@ -238,7 +241,7 @@ Dump == DumpTo(MCanonText(Tables, cls, beh, para))
 \* <<index, name, form, width (0: none), width promised?, names of the parsed record, lines of <<pad, id, len>>>>
 CaseOf(pp) ==
     LET present == SetToSortSeq(DOMAIN para, <) IN
-    [m |-> mode, c |-> cls, b |-> beh, u |-> MUnspecified(cls, beh, para),
+    [m |-> mode.name, c |-> cls, b |-> beh, u |-> MUnspecified(cls, beh, para),
      F |-> [k \in 1..Len(present) |->
               LET f == present[k] IN
               << f, Tables[cls][f].f, para[f].form,
@@ -249,13 +252,13 @@ CaseOf(pp) ==
 \* sampling of the big modes for the replay (all cases are model-checked, the selected ones are
 \* printed): in a uniform mode with emitmod = number of shapes every subset is printed with
 \* exactly one shape; subsets with <= 1 present or <= 1 absent field are always printed
-ShapeNo == IF ModeRec.uniform
-           THEN LET sq == SetToSeq(ModeRec.shapes) IN CHOOSE i \in 1..Len(sq) : sq[i] = shape
+ShapeNo == IF mode.uniform
+           THEN LET sq == SetToSeq(ModeShapes) IN CHOOSE i \in 1..Len(sq) : sq[i] = shape
            ELSE FoldSet(LAMBDA f, acc : acc + f * (3 * FoldSet(LAMBDA n, a : a + n, 0, MSizeLens(Subs(f), para[f].recs))
                                                      + Len(para[f].recs)), 0, DOMAIN para)
-Selected == \/ ModeRec.emitmod = 1
+Selected == \/ mode.emitmod = 1
             \/ NFields > 4 /\ (Cardinality(DOMAIN para) <= 1 \/ Cardinality(DOMAIN para) >= NFields - 1)
-            \/ (((MMask(DOMAIN para) * 7919) % 8191) + ShapeNo + EmitOff) % ModeRec.emitmod = 0
+            \/ (((MMask(DOMAIN para) * 7919) % 8191) + ShapeNo + EmitOff) % mode.emitmod = 0
 
 \* cls(text): every line of every structured field becomes a record
 Parse == /\ phase = "dumped" /\ res = "ok"
@@ -270,7 +273,8 @@ Load == /\ phase = "parsed"
         /\ phase' = "build" /\ text' = <<>> /\ parsed' = <<>>
         /\ UNCHANGED <<mode, cls, beh, shape, res>>
 
-Next == \/ \E f \in 1..NFields : \E sh \in (IF ModeRec.uniform THEN {shape} ELSE ModeRec.shapes) : Build(f, sh)
+Next == \/ /\ phase = "build" /\ Cardinality(DOMAIN para) < mode.maxf
+           /\ \E sh \in (IF mode.uniform THEN {shape} ELSE ModeShapes) : \E f \in 1..NFields : Build(f, sh)
         \/ Dump \/ Parse \/ Load
 
 Spec == Init /\ [][Next]_vars
@@ -281,7 +285,7 @@ ASSUME Emit => PrintT(<<"TABLES", ToJson(Tables)>>)
 \* invariants.  Those on the layout are evaluated in the state that holds a freshly dumped
 \* text; in a mode with heavy = FALSE (quick tier, the 2^14 subsets of PdiffIndex) they are
 \* left to the other modes, which cover the same shapes.
-Heavy  == ModeRec.heavy
+Heavy  == mode.heavy
 Dumped == phase = "dumped" /\ res = "ok"
 
 TypeOK == /\ phase \in {"build", "dumped", "parsed"} /\ res \in {"ok", "KeyError"}
@@ -346,6 +350,7 @@ Mode(name, configs, shapes, uniform, maxf, heavy, emitmod) ==
      heavy |-> heavy, emitmod |-> emitmod]
 
 ShapesSubsetsQuick == {Sh("multi", <<17, 2>>), Sh("single", <<5>>)}
+ShapesSubsetsP1     == {Sh("multi", <<12>>)}
 ShapesSubsets      == {Sh("multi", <<1>>), Sh("multi", <<18>>), Sh("multi", <<3, 10>>), Sh("multi", <<17, 2>>),
                        Sh("multi", <<16, 16>>), Sh("single", <<5>>), Sh("single", <<17>>)}
 ShapesRecordsQuick == MultiShapes({1, 2, 9, 15, 16, 17, 18}, 2) \cup SingleShapes({1, 16, 18})
@@ -355,7 +360,7 @@ ShapesPairs        == MultiShapes({1, 16, 17}, 2) \cup SingleShapes({3, 17})
 
 ModesQuick ==
   { Mode("subsets4", SmallConfigs, ShapesSubsets,      TRUE,  4,  TRUE,  1),
-    Mode("subsetsP", PdiffConfig,  ShapesSubsetsQuick, TRUE,  14, FALSE, 32),
+    Mode("subsetsP", PdiffConfig,  ShapesSubsetsP1,    TRUE,  14, FALSE, 16),
     Mode("records",  AllConfigs,   ShapesRecordsQuick, FALSE, 1,  TRUE,  1),
     Mode("pairs",    SmallConfigs, ShapesPairsQuick,   FALSE, 2,  TRUE,  1) }
 ModesThorough ==
@@ -367,5 +372,6 @@ ModesThorough ==
 \* negative controls (small)
 ModesNegIterate   == { Mode("neg", AllConfigs,      ShapesSubsetsQuick, TRUE, 2, TRUE, 1) }
 ModesNegIterateOk == { Mode("neg", NoLookupConfigs, ShapesSubsetsQuick, TRUE, 4, TRUE, 1) }
+ModesProbe == { Mode("subsetsP", PdiffConfig,  ShapesSubsetsP1,    TRUE,  14, FALSE, 16) }
 ModesNegSplit     == { Mode("neg", AllConfigs,      ShapesSubsetsQuick, TRUE, 1, TRUE, 1) }
 =============================================================================
